@@ -117,7 +117,7 @@ def run(ctx):
         ctx.touch(f)
         bad = []
         for p in ipaths(F, f, stop=lambda n: n in delk, depth=3):
-            rem = [e for e in p.events if dashmap_call(e.t) == ("remove", "S")]
+            rem = [e for e in p.events if dashmap_call(e.t) in (("remove", "S"), ("remove_if", "S"), ("remove_if_mut", "S"))]
             nd = len(p.calls(delk))
             if len(rem) != 1:
                 if nd:
@@ -263,6 +263,26 @@ def run(ctx):
             ctx.check(not outside, "R16.7", "%s|refusal-built-only-in-admission" % v,
                       "the admission refusal %s is produced only inside the admission decision whose outcome the put handlers count" % v,
                       detail="also built in %s" % outside)
+
+    # ---- R16.8 counters are only ever changed by one atomic read-modify-write --------------------------------------
+    # (a load followed by a store / a compare_exchange with a store fallback loses concurrent updates: readers on
+    # several threads bump the access counters at the same time)
+    n_w = 0
+    for n, g in F.fns.items():
+        if (g.rec.get("self_ty") or "").split("<")[0] not in (SM.holder,) and "Counter" not in (g.rec.get("self_ty") or ""):
+            continue
+        for b, t in g.calls():
+            c = t["callee"]
+            if not c.startswith("std::sync::atomic::Atomic::<u64>::"):
+                continue
+            m = c.split("::")[-1]
+            if m == "load":
+                continue
+            n_w += 1
+            okw = m == "fetch_add" or (m == "store" and g.op_origin(t["args"][1]) == ("const", 0, "u64"))
+            ctx.check(okw, "R16.8", "%s|counter-updated-atomically|%s" % (n, m),
+                      "a statistics counter is changed only by fetch_add (or reset to 0 by clear): no read-then-write sequence that could lose a concurrent update", g.where(b))
+    ctx.floor("R16.8", "atomic writes to statistics counters", n_w, 2)
 
     # ---- R16.5 hit ratio ---------------------------------------------------------------------------
     rh = {n for n, v in SM.read.items() if v == "CacheHits"}
